@@ -8,7 +8,7 @@ Open Scope string_scope.
 Open Scope list_scope.
 
 (* ---- the property over everything that is probed: a request that returns quietly was well-formed ---- *)
-(* Full statement (F1, F2, F3 were repaired by D48, D49, D76; one finding left: F4), kept visible: *)
+(* Full statement (all four findings repaired: D48, D49, D76, D79): *)
 Definition C20_full : Prop := C20_full_statement.
 (* = forall p, WFprobe p -> impl p = Ok -> WellFormed p *)
 
@@ -21,12 +21,19 @@ Theorem C20_malformed_is_loud : forall p, WFprobe p -> guard p = true -> ~ WellF
 Proof. exact malformed_is_loud. Qed.
 Print Assumptions C20_malformed_is_loud.
 
-(* HEADLINE on the current tree (D76 applied, Guards.fixed_F3 = true): the full statement holds for every probe except a
-   node_values key that is too short for the hierarchy and names a circuit (finding F4, switch Guards.fixed_F4) *)
+(* HEADLINE (F1, F2, F3, F4 repaired by D48, D49, D76, D79; switches Guards.fixed_F3 = fixed_F4 = true): the full statement,
+   no guard: every request that returns quietly was supported / well-formed *)
+Theorem C20_full_holds : C20_full_statement.
+Proof. exact (GuardsProofs.C20_full_when_fixed eq_refl eq_refl). Qed.
+Print Assumptions C20_full_holds.
+Theorem C20_full_malformed_is_loud : forall p, WFprobe p -> ~ WellFormed p -> loud_enough p (impl p).
+Proof. exact (GuardsProofs.malformed_is_loud_when_fixed eq_refl eq_refl). Qed.
+Print Assumptions C20_full_malformed_is_loud.
+(* the intermediate statement (D76 only) and the conditional forms, kept for the record *)
 Theorem C20_full_holds_modulo_F4 : forall p, WFprobe p -> guard_node_value_not_circuit p = true -> impl p = Ok -> WellFormed p.
 Proof. exact (GuardsProofs.C20_full_modulo_F4_when_F3_fixed eq_refl). Qed.
 Print Assumptions C20_full_holds_modulo_F4.
-(* with /verif/fixes/proposed_fix_C20_F4.diff and fixed_F4 := true: `C20_full_holds := C20_full_when_fixed eq_refl eq_refl` *)
+(* the general form, valid whatever the switches say *)
 Theorem C20_full_when_fixed : fixed_F3 = true -> fixed_F4 = true -> C20_full_statement.
 Proof. exact GuardsProofs.C20_full_when_fixed. Qed.
 Print Assumptions C20_full_when_fixed.
